@@ -75,8 +75,9 @@ func (m *valMap) UnmarshalJSON(b []byte) error {
 // kindMap: Shift rotates the attribute kinds; Rev lays the fields of a struct out in reverse order
 // (another Go type for the same JSON:API type name)
 type kindMap struct {
-	Shift int
-	Rev   bool
+	Shift   int
+	Rev     bool
+	NamedID bool // the ID field is of a defined string type (Check accepts it)
 }
 
 var nonBool = []int{
@@ -164,15 +165,19 @@ func structType(name string, fields defMap, km kindMap) reflect.Type {
 		}
 	}
 	var key strings.Builder
-	fmt.Fprintf(&key, "%s|%d|%v", name, km.Shift, km.Rev)
+	fmt.Fprintf(&key, "%s|%d|%v|%v", name, km.Shift, km.Rev, km.NamedID)
 	for _, f := range names {
 		fmt.Fprintf(&key, "|%s:%+v", f, fields[f])
 	}
 	if t, ok := structCache[key.String()]; ok {
 		return t
 	}
+	idType := reflect.TypeOf("")
+	if km.NamedID {
+		idType = reflect.TypeOf(Label(""))
+	}
 	sf := []reflect.StructField{{
-		Name: "ID", Type: reflect.TypeOf(""),
+		Name: "ID", Type: idType,
 		Tag: reflect.StructTag(fmt.Sprintf(`json:"id" api:"%s"`, name)),
 	}}
 	for i, f := range names {
